@@ -139,6 +139,12 @@ def run(ctx):
         r = TermBuilder(st, prog).return_term()
         t_p = ("param", 2, st.local_name(2))
         f_t = ("call", CF + "::fingerprint", (selfp, t_p))
+        if prog.fn(CF + "::fingerprint") is None and r[0] == "tuple" and len(r[1]) == 3:
+            # fingerprint() merged into start(): f is whatever the first component is (its range is R07-fingerprint-nonzero's
+            # business); what matters here is that the SAME f is hashed for the alternate bucket, and that it depends on t only
+            f_t = r[1][0]
+            if not any(x == t_p for x in subterms(f_t)) or any(x[0] in ("unknown", "rec", "clobber", "loopvar") for x in subterms(f_t)):
+                f_t = ("unknown", "fingerprint is not a function of the element")
         i1 = ("call", CF + "::hash", (selfp, t_p))
         want = ("tuple", (f_t, i1, mk("BitXor", i1, ("call", CF + "::hash", (selfp, f_t)))))
         ctx.check(r == want, "R01-cuckoo-home", st.key, st, "start(t) = (f, i1, i1 ^ hash(f))", "start returns %s" % fmt(r))
